@@ -1,79 +1,12 @@
-(* What the translated source computes (Generated/LeafCode.v, produced by tools/leafcode.py from clang's typed AST of
-   /repo's current source): each theorem runs a translated function body in the interpreter of Model/Cxx.v on *arbitrary*
-   arguments, object contents, capacities and widths and shows that the result is the hand-written model's function - so the
-   theorems proved about the model (Proofs/BitsProofs.v, BitArrayProofs.v, BitStreamProofs.v) are theorems about the code
-   that is in /repo now, for these functions, without sampling. The file is re-checked against a freshly generated
-   LeafCode.v by the checks of C13 and C20 (and by C08, C09, C12, which rest on the same functions). *)
+(* BitArrayT<N>::get/set/clear(index) of /repo's current bit_array.inl, as translated (Generated/LeafCode.v), N <= 255: for every capacity, storage content and
+   index in range the translated body runs without fault and computes Model/BitArray.v's ba_get / ba_set / ba_clear.  (Whole-array operations and the second
+   index class: LeafCodeArrays.v; bit width: LeafCodeBits.v; bit streams: LeafCodeStream.v, LeafCodeWide.v, LeafCodeBuffer.v.) *)
 From Coq Require Import List ZArith NArith Bool String Lia ZifyBool.
 From FFSM2 Require Import Model.Cxx Model.Bits Model.BitArray Model.BitStream Generated.LeafCode
                           Proofs.BitsProofs Proofs.BitArrayProofs Proofs.BitStreamProofs Proofs.LeafTactics Proofs.LeafConsts.
 Import ListNotations.
 Local Open Scope string_scope.
 Local Open Scope Z_scope.
-
-(* ---------- utility.hpp: bitWidth ---------- *)
-Ltac Zify.zify_post_hook ::= Z.div_mod_to_equations.
-
-Ltac sym_eval := cbn -[Z.shiftr Z.shiftl Z.land Z.lor Z.lxor Z.lnot].
-
-(* the exact bit length *)
-Definition bw_spec (v r : Z) : Prop := (v = 0 /\ r = 0) \/ (1 <= r <= 32 /\ 2 ^ (r - 1) <= v < 2 ^ r).
-
-Lemma bw_spec_unique v r1 r2 : bw_spec v r1 -> bw_spec v r2 -> r1 = r2.
-Proof.
-  intros [[H1 E1]|[R1 H1]] [[H2 E2]|[R2 H2]]; try lia.
-  destruct (Z.lt_trichotomy r1 r2) as [L|[E|L]]; [exfalso|exact E|exfalso].
-  - assert (2 ^ r1 <= 2 ^ (r2 - 1)) by (apply Z.pow_le_mono_r; lia). lia.
-  - assert (2 ^ r2 <= 2 ^ (r1 - 1)) by (apply Z.pow_le_mono_r; lia). lia.
-Qed.
-
-Lemma shiftr_eqb0 v k : 0 <= v -> 0 <= k -> (Z.shiftr v k =? 0) = (v <? 2 ^ k).
-Proof.
-  intros Hv Hk. rewrite Z.shiftr_div_pow2 by exact Hk.
-  assert (0 < 2 ^ k) by (apply Z.pow_pos_nonneg; lia).
-  destruct (v <? 2 ^ k) eqn:E.
-  - apply Z.eqb_eq. apply Z.div_small. lia.
-  - apply Z.eqb_neq. intro D. apply Z.div_small_iff in D; lia.
-Qed.
-
-Ltac chain_step :=
-  match goal with
-  | |- context[if b2z ?c =? 0 then _ else _] => destruct c eqn:?; cbn [b2z Z.eqb]
-  end.
-
-Theorem src_bitWidth_spec v : 0 <= v < 2 ^ 32 ->
-  exists r, call1 leaf_ftable "bitWidth_u32" v = Some r /\ bw_spec v r.
-Proof.
-  (* written to survive rewrites of the function: any chain or recursion of tests of the forms v >> k == 0, v < c, v <= c is accepted *)
-  intros Hv. unfold call1. sym_eval.
-  rewrite ?Z.shiftr_shiftr by lia. sym_eval.
-  rewrite ?shiftr_eqb0 by lia. cbn [Z.pow Z.pow_pos Pos.iter Z.mul Pos.mul].
-  repeat chain_step.
-  all: try (exfalso; lia).            (* branches the range of v excludes (a recursive formulation is unfolded further than 32 levels) *)
-  all: sym_eval; eexists; (split; [reflexivity|]); unfold bw_spec; cbn [Z.pow Z.pow_pos Pos.iter Z.mul Pos.mul Z.sub Z.add Z.opp Z.pos_sub Pos.pred_double Pos.succ Pos.add]; lia.
-Qed.
-
-(* ... hence the source's bitWidth is the model's, for every 32-bit argument *)
-Lemma model_bitWidth_spec v : 0 <= v < 2 ^ 32 -> bw_spec v (Z.of_N (bitWidth (Z.to_N v))).
-Proof.
-  intros Hv. destruct (bitWidth_spec (Z.to_N v)) as [Hhi Hlo]; [change (2 ^ 32)%N with (Z.to_N (2 ^ 32)); lia|].
-  pose proof (bitWidth_le_32 (Z.to_N v)) as H32.
-  set (r := bitWidth (Z.to_N v)) in *. unfold bw_spec.
-  destruct (N.eq_dec r 0) as [E|E].
-  - left. rewrite E in *. cbn in Hhi. lia.
-  - right. destruct Hlo as [Hlo|Hlo]; [contradiction|]. split; [lia|].
-    assert (Z.of_N (2 ^ r) = 2 ^ Z.of_N r) by apply N2Z.inj_pow.
-    assert (Z.of_N (2 ^ (r - 1)) = 2 ^ (Z.of_N r - 1)) by (rewrite N2Z.inj_pow; f_equal; lia).
-    lia.
-Qed.
-
-Theorem src_bitWidth v : 0 <= v < 2 ^ 32 ->
-  call1 leaf_ftable "bitWidth_u32" v = Some (Z.of_N (bitWidth (Z.to_N v))).
-Proof.
-  intros Hv. destruct (src_bitWidth_spec v Hv) as [r [E S]]. rewrite E. f_equal.
-  exact (bw_spec_unique v _ _ S (model_bitWidth_spec v Hv)).
-Qed.
-
 
 Theorem src_BitArray_get cap b n : 1 <= cap <= 255 -> Forall (fun x => (x < 256)%N) b -> Z.of_nat (List.length b) = (cap + 7) / 8 -> Z.of_N n < cap ->
   result (run leaf_ftable (ba_consts cap) BitArrayT_13__get_u32 [Z.of_N n] [] [("_storage", zs b)])
@@ -105,250 +38,4 @@ Proof.
   sym_exec. rewrite ?shiftr3, ?land7. fin_uset.
   all: try (apply ldiff_byte; pose proof (uget_lt256 b (n / 8) Hb); lia).
 Qed.
-
-(* ---------- bit stream: the body of the loop of write<W> ---------- *)
-
-Fixpoint find_while (s : stmt) : option (expr * stmt) :=
-  match s with
-  | SWhile c b => Some (c, b)
-  | SSeq a b => match find_while a with Some r => Some r | None => find_while b end
-  | _ => None
-  end.
-Definition loop_cond (m : method) : expr := match find_while (m_body m) with Some (c, _) => c | None => EInt 0 end.
-Definition loop_body (m : method) : stmt := match find_while (m_body m) with Some (_, b) => b | None => SSkip end.
-
-Lemma bset_uset b i v : bset b i v = uset b i (fun _ => v).
-Proof.
-  unfold bset, uset. generalize (N.to_nat i) as k. induction b as [|h t IH]; intros [|k]; cbn; try reflexivity.
-  rewrite IH. reflexivity.
-Qed.
-Lemma bget_uget b i : bget b i = uget b i.  Proof. reflexivity. Qed.
-Lemma lor_mod256 x y : (x < 256)%N -> (N.lor x (y mod 256) = (N.lor x y) mod 256)%N.
-Proof.
-  intros Hx. change 256%N with (2 ^ 8)%N. rewrite <- !N.land_ones, N.land_lor_distr_l.
-  f_equal. rewrite N.land_ones. symmetry. apply N.mod_small. exact Hx.
-Qed.
-Ltac norm_state := cbv [set_local set_field set_array update locals fields arrays String.eqb Ascii.eqb Bool.eqb].
-
-Definition w8_state (it0 bw : Z) (ib w : N) (x1 x2 x3 x4 x5 : Z) (c : N) (buf : list N) : state :=
-  {| locals := [("item", it0); ("BIT_WIDTH", bw); ("itemBits", Z.of_N ib); ("itemWidth", Z.of_N w);
-                ("byteIndex", x1); ("byteChunkStart", x2); ("byteDataWidth", x3); ("byteChunkWidth", x4); ("byteChunk", x5)];
-     fields := [("_cursor", Z.of_N c)];
-     arrays := [("_buffer._data", zs buf)] |}.
-
-Lemma write5_body g cs it0 bw ib w x1 x2 x3 x4 x5 c buf :
-  Forall (fun x => (x < 256)%N) buf -> (ib < 256)%N -> (w < 256)%N -> (c < 256)%N -> (N.to_nat (c / 8) < List.length buf)%nat ->
-  exists y1 y2 y3 y4 y5,
-  exec leaf_ftable cs (20 + g) (w8_state it0 bw ib w x1 x2 x3 x4 x5 c buf) (loop_body BitWriteStreamT_100__write_5)
-  = let '(buf', c', ib', w') := write_chunk buf c ib w in
-    ONormal (w8_state it0 bw ib' w' y1 y2 y3 y4 y5 c' buf').
-Proof.
-  intros Hb Hib Hw Hc Hidx. do 5 eexists. unfold w8_state, write_chunk.
-  pose proof (shiftr3 c) as Hs3. pose proof (land7 c) as Hl7.
-  sym_exec. norm_state.
-  rewrite bset_uset, <- lor_mod256 by (pose proof (uget_lt256 buf (N.shiftr c 3) Hb) as HH; unfold uget in HH; unfold bget; lia).
-  close_min.
-Qed.
-
-Lemma exec_while_unfold ft cs f st c b :
-  exec ft cs (S f) st (SWhile c b) =
-  match eval ft cs call_depth st c with
-  | Some cz => if cz =? 0 then ONormal st
-               else match exec ft cs f st b with ONormal st' => exec ft cs f st' (SWhile c b) | o => o end
-  | None => OFault
-  end.
-Proof. reflexivity. Qed.
-
-Lemma Forall_bset buf i v : Forall (fun x => (x < 256)%N) buf -> (v < 256)%N -> Forall (fun x => (x < 256)%N) (bset buf i v).
-Proof.
-  unfold bset. generalize (N.to_nat i) as k. intros k H Hv. revert k.
-  induction H as [|h t Hh Ht IH]; intros [|k]; cbn; constructor; auto.
-Qed.
-Lemma bset_length buf i v : List.length (bset buf i v) = List.length buf.
-Proof. unfold bset. apply bset_nat_length. Qed.
-
-Lemma write5_loop : forall k g cs it0 bw ib w x1 x2 x3 x4 x5 c buf,
-  (k <= g)%nat -> Forall (fun x => (x < 256)%N) buf -> (ib < 256)%N -> (w <= N.of_nat k)%N -> (w < 256)%N -> (c < 256)%N ->
-  (c + w <= 8 * N.of_nat (List.length buf))%N -> (List.length buf <= 32)%nat ->
-  exists y1 y2 y3 y4 y5 ib',
-  exec leaf_ftable cs (21 + g) (w8_state it0 bw ib w x1 x2 x3 x4 x5 c buf)
-       (SWhile (loop_cond BitWriteStreamT_100__write_5) (loop_body BitWriteStreamT_100__write_5))
-  = let '(buf', c') := write_loop k buf c ib w in
-    ONormal (w8_state it0 bw ib' 0 y1 y2 y3 y4 y5 c' buf').
-Proof.
-  induction k as [|k IH]; intros g cs it0 bw ib w x1 x2 x3 x4 x5 c buf Hg Hb Hib Hw Hw8 Hc Hfit Hlen.
-  - assert (w = 0%N) by lia. subst w. exists x1, x2, x3, x4, x5, ib.
-    change (21 + g)%nat with (S (20 + g)). rewrite exec_while_unfold. reflexivity.
-  - destruct (N.eqb_spec w 0) as [->|Hw0].
-    + exists x1, x2, x3, x4, x5, ib. change (21 + g)%nat with (S (20 + g)). rewrite exec_while_unfold. reflexivity.
-    + destruct g as [|g]; [lia|].
-      change (21 + S g)%nat with (S (20 + S g)). rewrite exec_while_unfold.
-      assert (Hcond : eval leaf_ftable cs call_depth (w8_state it0 bw ib w x1 x2 x3 x4 x5 c buf) (loop_cond BitWriteStreamT_100__write_5)
-                      = Some 1).
-      { unfold w8_state. cbn -[conv Z.of_N]. rewrite conv_bool_of_N. destruct (N.eqb_spec w 0); [contradiction|reflexivity]. }
-      rewrite Hcond. cbn [Z.eqb].
-      destruct (write5_body (S g) cs it0 bw ib w x1 x2 x3 x4 x5 c buf Hb Hib) as (y1 & y2 & y3 & y4 & y5 & E);
-        [lia|exact Hc|lia|].
-      rewrite E. cbn [write_loop]. rewrite (proj2 (N.eqb_neq w 0) Hw0).
-      unfold write_chunk. cbv beta iota zeta.
-      pose proof (land7 c) as Hl7. pose proof (N.mod_lt c 8 ltac:(lia)) as Hm8.
-      set (cw := N.min (8 - N.land c 7) w) in *.
-      assert (Hcw : (1 <= cw <= w /\ cw <= 8)%N) by (unfold cw; lia).
-      change (20 + S g)%nat with (21 + g)%nat.
-      apply IH.
-      * lia.
-      * apply Forall_bset; [exact Hb|]. apply N.mod_lt. lia.
-      * pose proof (Nshiftr_le ib cw). lia.
-      * lia.
-      * lia.
-      * apply N.mod_lt. lia.
-      * rewrite bset_length. destruct (N.ltb_spec (c + cw) 256) as [L|G].
-        -- rewrite N.mod_small by exact L. lia.
-        -- assert (c + cw = 256)%N by lia. assert (w - cw = 0)%N by lia. replace ((c + cw) mod 256)%N with 0%N by (rewrite H; reflexivity). lia.
-      * rewrite bset_length. exact Hlen.
-Qed.
-
-
-Lemma exec_seq ft cs f st a b :
-  exec ft cs (S f) st (SSeq a b) = match exec ft cs f st a with ONormal st' => exec ft cs f st' b | o => o end.
-Proof. reflexivity. Qed.
-Lemma exec_local ft cs f st x e :
-  exec ft cs (S f) st (SLocal x e) = match eval ft cs call_depth st e with Some v => ONormal (set_local st x v) | None => OFault end.
-Proof. reflexivity. Qed.
-Lemma exec_return ft cs f st e :
-  exec ft cs (S f) st (SReturn e) = match eval ft cs call_depth st e with Some v => OReturn st (Some v) | None => OFault end.
-Proof. reflexivity. Qed.
-(* run a prefix of declarations up to an opaque statement *)
-Ltac step_prefix :=
-  repeat (rewrite exec_seq; rewrite exec_local;
-          cbn -[exec conv arith Z.shiftr Z.shiftl Z.land Z.lor Z.lxor Z.lnot Z.quot Z.rem Z.div Z.modulo Z.pow nth_z set_z zs Z.of_N Z.add Z.sub Z.opp Z.mul];
-          repeat conv_step; norm_state).
-
-
-Theorem src_write8 W item c buf :
-  (1 <= W <= 8)%N -> (item < 256)%N -> (c < 256)%N -> Forall (fun x => (x < 256)%N) buf ->
-  (c + W <= 8 * N.of_nat (List.length buf))%N -> (List.length buf <= 32)%nat ->
-  result (run leaf_ftable [("NBitWidth", Z.of_N W)] BitWriteStreamT_100__write_5 [Z.of_N item]
-              [("_cursor", Z.of_N c)] [("_buffer._data", zs buf)])
-  = let '(buf', c') := write buf c W item in
-    Some (None, [("_cursor", Z.of_N c')], [("_buffer._data", zs buf')]).
-Proof.
-  intros HW Hi Hc Hb Hfit Hlen. unfold run, init_locals, run_fuel.
-  cbn [m_body m_params m_locals BitWriteStreamT_100__write_5 combine map app].
-  match goal with |- context[SWhile ?c ?b] =>
-    change (SWhile c b) with (SWhile (loop_cond BitWriteStreamT_100__write_5) (loop_body BitWriteStreamT_100__write_5)) end.
-  remember (SWhile (loop_cond BitWriteStreamT_100__write_5) (loop_body BitWriteStreamT_100__write_5)) as LOOP eqn:HL.
-  change 100%nat with (S (S (S (21 + 76)))).
-  step_prefix. subst LOOP.
-  change 97%nat with (21 + 76)%nat.
-  destruct (write5_loop (N.to_nat W) 76 [("NBitWidth", Z.of_N W)] (Z.of_N item) (Z.of_N W) item W 0 0 0 0 0 c buf)
-    as (y1 & y2 & y3 & y4 & y5 & ib' & E); try assumption; try lia.
-  unfold w8_state in E. rewrite E. unfold write.
-  destruct (write_loop (N.to_nat W) buf c item W) as [buf' c']. reflexivity.
-Qed.
-
-(* ---------- bit stream: read<W>, W <= 8 ---------- *)
-Definition r8_state (bw : Z) (item icur w : N) (x1 x2 x3 x4 x5 x6 x7 : Z) (c : N) (buf : list N) : state :=
-  {| locals := [("BIT_WIDTH", bw); ("item", Z.of_N item); ("itemCursor", Z.of_N icur); ("itemWidth", Z.of_N w);
-                ("byteIndex", x1); ("byteChunkStart", x2); ("byteDataWidth", x3); ("byteChunkWidth", x4);
-                ("byteChunkMask", x5); ("byteChunk", x6); ("itemChunk", x7)];
-     fields := [("_cursor", Z.of_N c)];
-     arrays := [("_buffer._data", zs buf)] |}.
-
-Lemma read5_body g cs bw item icur w x1 x2 x3 x4 x5 x6 x7 c buf :
-  Forall (fun x => (x < 256)%N) buf -> (item < 2 ^ icur)%N -> (icur + w <= 8)%N -> (1 <= w)%N -> (c < 256)%N -> (N.to_nat (c / 8) < List.length buf)%nat ->
-  exists y1 y2 y3 y4 y5 y6 y7,
-  exec leaf_ftable cs (20 + g) (r8_state bw item icur w x1 x2 x3 x4 x5 x6 x7 c buf) (loop_body BitReadStreamT_100__read_5)
-  = let '(c', item', icur', w') := read_chunk buf c item icur w in
-    ONormal (r8_state bw item' icur' w' y1 y2 y3 y4 y5 y6 y7 c' buf).
-Proof.
-  intros Hb Hitem Hfit Hw1 Hc Hidx. do 7 eexists. unfold r8_state, read_chunk.
-  pose proof (shiftr3 c) as Hs3. pose proof (land7 c) as Hl7.
-  pose proof (N.mod_lt c 8 ltac:(lia)) as Hm8.
-  set (cw := N.min (8 - N.land c 7) w).
-  assert (Hcw : (cw <= w /\ cw <= 8)%N) by (unfold cw; lia).
-  assert (Hmask : (1 <= N.shiftl 1 cw <= 256)%N) by (apply (Nshiftl1_range cw 8); lia).
-  assert (Hitem8 : (item < 256)%N).
-  { apply N.lt_le_trans with (2 ^ icur)%N; [exact Hitem|]. change 256%N with (2 ^ 8)%N. apply N.pow_le_mono_r; lia. }
-  set (chunk := N.land (N.shiftr (uget buf (N.shiftr c 3)) (N.land c 7)) (N.shiftl 1 cw - 1)).
-  assert (Hchunk : (chunk < 2 ^ cw)%N).
-  { unfold chunk. pose proof (Nland_range (N.shiftr (uget buf (N.shiftr c 3)) (N.land c 7)) (N.shiftl 1 cw - 1)) as [_ L].
-    rewrite N.shiftl_1_l in *. assert (2 ^ cw <> 0)%N by (apply N.pow_nonzero; lia). lia. }
-  assert (Hich : (N.shiftl chunk icur < 256)%N).
-  { apply N.lt_le_trans with (2 ^ (cw + icur))%N; [apply Nshiftl_bound; [exact Hchunk|lia]|].
-    change 256%N with (2 ^ 8)%N. apply N.pow_le_mono_r; lia. }
-  unfold chunk, cw in *.
-  sym_exec. norm_state. reflexivity.
-Qed.
-
-Lemma read5_loop : forall k g cs bw item icur w x1 x2 x3 x4 x5 x6 x7 c buf,
-  (k <= g)%nat -> Forall (fun x => (x < 256)%N) buf -> (item < 2 ^ icur)%N -> (icur + w <= 8)%N -> (w <= N.of_nat k)%N -> (c < 256)%N ->
-  (c + w <= 8 * N.of_nat (List.length buf))%N -> (List.length buf <= 32)%nat ->
-  exists y1 y2 y3 y4 y5 y6 y7 icur',
-  exec leaf_ftable cs (21 + g) (r8_state bw item icur w x1 x2 x3 x4 x5 x6 x7 c buf)
-       (SWhile (loop_cond BitReadStreamT_100__read_5) (loop_body BitReadStreamT_100__read_5))
-  = let '(item', c') := read_loop k buf c item icur w in
-    ONormal (r8_state bw item' icur' 0 y1 y2 y3 y4 y5 y6 y7 c' buf).
-Proof.
-  induction k as [|k IH]; intros g cs bw item icur w x1 x2 x3 x4 x5 x6 x7 c buf Hg Hb Hitem Hfit8 Hw Hc Hfit Hlen.
-  - assert (w = 0%N) by lia. subst w. exists x1, x2, x3, x4, x5, x6, x7, icur.
-    change (21 + g)%nat with (S (20 + g)). rewrite exec_while_unfold. reflexivity.
-  - destruct (N.eqb_spec w 0) as [->|Hw0].
-    + exists x1, x2, x3, x4, x5, x6, x7, icur. change (21 + g)%nat with (S (20 + g)). rewrite exec_while_unfold. reflexivity.
-    + destruct g as [|g]; [lia|].
-      change (21 + S g)%nat with (S (20 + S g)). rewrite exec_while_unfold.
-      assert (Hcond : eval leaf_ftable cs call_depth (r8_state bw item icur w x1 x2 x3 x4 x5 x6 x7 c buf) (loop_cond BitReadStreamT_100__read_5)
-                      = Some 1).
-      { unfold r8_state. cbn -[conv Z.of_N]. rewrite conv_bool_of_N. destruct (N.eqb_spec w 0); [contradiction|reflexivity]. }
-      rewrite Hcond. cbn [Z.eqb].
-      destruct (read5_body (S g) cs bw item icur w x1 x2 x3 x4 x5 x6 x7 c buf Hb Hitem Hfit8 ltac:(lia) Hc) as (y1 & y2 & y3 & y4 & y5 & y6 & y7 & E); [lia|].
-      rewrite E. cbn [read_loop]. rewrite (proj2 (N.eqb_neq w 0) Hw0).
-      unfold read_chunk. cbv beta iota zeta.
-      pose proof (land7 c) as Hl7. pose proof (N.mod_lt c 8 ltac:(lia)) as Hm8.
-      set (cw := N.min (8 - N.land c 7) w) in *.
-      assert (Hcw : (1 <= cw <= w /\ cw <= 8)%N) by (unfold cw; lia).
-      change (20 + S g)%nat with (21 + g)%nat.
-      apply IH.
-      * lia.
-      * exact Hb.
-      * (* the accumulated item stays below 2^(icur + cw) *)
-        set (chunk := N.land (N.shiftr (bget buf (N.shiftr c 3)) (N.land c 7)) (N.shiftl 1 cw - 1)).
-        assert (Hchunk : (chunk < 2 ^ cw)%N).
-        { unfold chunk. pose proof (Nland_range (N.shiftr (bget buf (N.shiftr c 3)) (N.land c 7)) (N.shiftl 1 cw - 1)) as [_ L].
-          rewrite N.shiftl_1_l in *. assert (2 ^ cw <> 0)%N by (apply N.pow_nonzero; lia). lia. }
-        replace (icur + cw)%N with (cw + icur)%N by lia.
-        apply Nlor_lt_pow2.
-        -- apply N.lt_le_trans with (2 ^ icur)%N; [exact Hitem|apply N.pow_le_mono_r; lia].
-        -- apply Nshiftl_bound; [exact Hchunk|lia].
-      * lia.
-      * lia.
-      * apply N.mod_lt. lia.
-      * destruct (N.ltb_spec (c + cw) 256) as [L|G].
-        -- rewrite N.mod_small by exact L. lia.
-        -- assert (c + cw = 256)%N by lia. assert (w - cw = 0)%N by lia. replace ((c + cw) mod 256)%N with 0%N by (rewrite H; reflexivity). lia.
-      * exact Hlen.
-Qed.
-
-Theorem src_read8 W c buf :
-  (1 <= W <= 8)%N -> (c < 256)%N -> Forall (fun x => (x < 256)%N) buf ->
-  (c + W <= 8 * N.of_nat (List.length buf))%N -> (List.length buf <= 32)%nat ->
-  result (run leaf_ftable (width_const W) BitReadStreamT_100__read_5 [] (cursor_fld c) (stream_obj buf))
-  = let '(v, c') := read buf c W in Some (Some (Z.of_N v), cursor_fld c', stream_obj buf).
-Proof.
-  intros HW Hc Hb Hfit Hlen. unfold run, init_locals, run_fuel, width_const, cursor_fld, stream_obj.
-  cbn [m_body m_params m_locals BitReadStreamT_100__read_5 combine map app].
-  match goal with |- context[SWhile ?c ?b] =>
-    change (SWhile c b) with (SWhile (loop_cond BitReadStreamT_100__read_5) (loop_body BitReadStreamT_100__read_5)) end.
-  remember (SWhile (loop_cond BitReadStreamT_100__read_5) (loop_body BitReadStreamT_100__read_5)) as LOOP eqn:HL.
-  repeat (rewrite exec_seq || rewrite exec_local
-          || (progress cbn -[exec conv arith Z.shiftr Z.shiftl Z.land Z.lor Z.lxor Z.lnot Z.quot Z.rem Z.div Z.modulo Z.pow nth_z set_z zs Z.of_N Z.add Z.sub Z.opp Z.mul])
-          || conv_step); norm_state.
-  subst LOOP. change 96%nat with (21 + 75)%nat.
-  destruct (read5_loop (N.to_nat W) 75 [("NBitWidth", Z.of_N W)] (Z.of_N W) 0 0 W 0 0 0 0 0 0 0 c buf)
-    as (y1 & y2 & y3 & y4 & y5 & y6 & y7 & icur' & E); try assumption; try lia.
-  unfold r8_state in E. change (Z.of_N 0) with 0 in E. rewrite E. unfold read.
-  destruct (read_loop (N.to_nat W) buf c 0 0 W) as [v c'].
-  rewrite exec_return. cbn. reflexivity.
-Qed.
-
 
